@@ -392,18 +392,19 @@ func runSolver(sv Solver, text string, hardTimeout time.Duration) ([]rawResult, 
 }
 
 type Runner struct {
-	vc        *VC
-	TimeoutMs int
-	Workers   int
-	Primary   string
-	Fallback  []string
-	Cross     bool // thorough: confirm unsat with a second solver
-	Tier      string
-	Sampled   []map[string]interface{}
-	mu        sync.Mutex
-	SolverMs  map[string]int64
-	Calls     map[string]int
-	failInst  map[*Script]int
+	vc           *VC
+	fewUndecided bool // at most a dozen obligations undecided after the first pass (flakes rather than a broken tree)
+	TimeoutMs    int
+	Workers      int
+	Primary      string
+	Fallback     []string
+	Cross        bool // thorough: confirm unsat with a second solver
+	Tier         string
+	Sampled      []map[string]interface{}
+	mu           sync.Mutex
+	SolverMs     map[string]int64
+	Calls        map[string]int
+	failInst     map[*Script]int
 }
 
 func (r *Runner) abandoned(sc *Script) bool {
@@ -570,6 +571,13 @@ func (r *Runner) Run(scripts []*Script) []*ObResult {
 			}
 		}
 		retry = lim
+		undecided := 0
+		for _, res := range retry {
+			if res.Status != "sat" && !res.Ob.ExpectSat {
+				undecided++
+			}
+		}
+		r.fewUndecided = undecided <= 12
 		sem := make(chan struct{}, r.Workers)
 		var wg2 sync.WaitGroup
 		stillBad := map[string]int{} // per obligation name: retries that stayed undecided
@@ -600,7 +608,7 @@ func (r *Runner) Run(scripts []*Script) []*ObResult {
 		// query at a time, when nothing else of this run is executing (at most six queries)
 		serial := 0
 		for _, res := range retry {
-			if serial >= 6 {
+			if serial >= 6 || !r.fewUndecided {
 				break
 			}
 			if res.OK() || res.Ob.ExpectSat || res.Status == "sat" {
@@ -828,8 +836,8 @@ func (r *Runner) retry(header string, res *ObResult) {
 		}
 	}
 	// last resort against load-induced time-outs: the primary solver once more with four times the budget
-	// (the number of such attempts per obligation name is bounded by the caller)
-	if !res.Ob.ExpectSat {
+	// (only when few obligations are undecided: many undecided ones mean a broken tree, not a loaded machine)
+	if !res.Ob.ExpectSat && r.fewUndecided {
 		rr, _ := r.single(header, res, r.Primary, 4*r.TimeoutMs, false)
 		if rr.status == "unsat" {
 			res.Status, res.Solver, res.Detail = rr.status, r.Primary, rr.detail
